@@ -237,9 +237,9 @@ Example C11_stable_hypotheses_met :
   end = true.
 Proof. vm_compute. auto. Qed.
 (* D11b: the declared length of a fixed array does not enter either: uint256[4294967295] on an empty
-   input is an error that requests nothing, and its bound for 0 bytes of data is 8 units *)
+   input is an error that requests nothing, and its bound for 0 bytes of data is 6 units *)
 Example C11_declared_length_does_not_matter :
   let c := tc_of_ty (TTuple [TFixedArr (TUInt 256) 4294967295]) in
   tc_wf c = true /\ no_zero_size_elem c = true /\
-  DecodeABIData_c c [] 0 = (Err ENotEnoughValue, 2%N) /\ bound c 0 = 8%N.
+  DecodeABIData_c c [] 0 = (Err ENotEnoughValue, 2%N) /\ bound c 0 = 6%N.
 Proof. vm_compute. auto. Qed.
